@@ -257,6 +257,101 @@ theorem findWrappingTypes_of_match (S : Schema) (d : Dfa) (q : Nat) (target : Ty
   rw [wrapSearchO.eq_3]
   simp only [h, if_true]
 
+/-! ### find_wrapping: the chain can be opened step by step -/
+
+/-- every wrapper of the chain is a possible wrapper type and is accepted where it is opened: the
+    first at state `q` of `d`, each next one as first child of the one before -/
+def ChainFrom (S : Schema) : Dfa → Nat → List TypeId → Prop
+  | _, _, [] => True
+  | d, q, w :: rest => S.wrappable w = true ∧ (d.matchType q w).isSome = true ∧ ChainFrom S (S.dfa w) 0 rest
+
+/-- where the chain ends: the automaton and state the next wrapper (or the target) is matched in -/
+def chainEnd (S : Schema) (d : Dfa) (q : Nat) : List TypeId → Dfa × Nat
+  | [] => (d, q)
+  | w :: rest => chainEnd S (S.dfa w) 0 rest
+
+theorem ChainFrom_snoc (S : Schema) : ∀ (c : List TypeId) (d : Dfa) (q : Nat) (t : TypeId),
+    ChainFrom S d q c → S.wrappable t = true →
+    (((chainEnd S d q c).1).matchType (chainEnd S d q c).2 t).isSome = true → ChainFrom S d q (c ++ [t])
+  | [], _, _, _, _, hw, hm => ⟨hw, hm, trivial⟩
+  | w :: rest, _, _, t, ⟨h1, h2, h3⟩, hw, hm => ⟨h1, h2, ChainFrom_snoc S rest (S.dfa w) 0 t h3 hw hm⟩
+
+theorem chainEnd_snoc (S : Schema) : ∀ (c : List TypeId) (d : Dfa) (q : Nat) (t : TypeId),
+    chainEnd S d q (c ++ [t]) = (S.dfa t, 0)
+  | [], _, _, _ => rfl
+  | w :: rest, _, _, t => chainEnd_snoc S rest (S.dfa w) 0 t
+
+/-- a queue item: its chain can be opened from the root position and ends at the item's position -/
+def WrapItem.chainOk (S : Schema) (root : Dfa) (q : Nat) (it : WrapItem) : Prop :=
+  ChainFrom S root q it.chain ∧
+    chainEnd S root q it.chain = ((match it.ty with | none => root | some t => S.dfa t), it.state)
+
+theorem wrapEdges_chainOk (S : Schema) (root : Dfa) (q : Nat) (cur : WrapItem) (d : Dfa)
+    (hd : d = (match cur.ty with | none => root | some t => S.dfa t)) (hcur : cur.chainOk S root q) :
+    ∀ (edges : List (TypeId × Nat)) (seen : List TypeId), (∀ e ∈ edges, e ∈ d.edgesOf cur.state) →
+      ∀ it ∈ (wrapEdges S d cur edges seen).1, it.chainOk S root q
+  | [], seen, _, it, h => by simp [wrapEdges] at h
+  | (t, nxt) :: rest, seen, hsub, it, h => by
+    have ih := fun seen' => wrapEdges_chainOk S root q cur d hd hcur rest seen'
+      (fun e he => hsub e (List.mem_cons_of_mem _ he))
+    unfold wrapEdges at h
+    split at h
+    · rename_i hc
+      simp only [Bool.and_eq_true] at hc
+      simp only [List.mem_cons] at h
+      rcases h with rfl | h
+      · have hm : (d.matchType cur.state t).isSome = true :=
+          Dfa.matchType_isSome_of_mem (hsub (t, nxt) (by simp))
+        refine ⟨ChainFrom_snoc S cur.chain root q t hcur.1 hc.1.1 ?_, ?_⟩
+        · rw [hcur.2, ← hd]; exact hm
+        · simp only [chainEnd_snoc]
+      · exact ih _ it h
+    · exact ih _ it h
+
+theorem wrapSearchO_chain (S : Schema) (root : Dfa) (q : Nat) (target : TypeId) :
+    ∀ (fuel : Nat) (queue : List WrapItem) (seen : List TypeId) (w : List TypeId),
+      (∀ it ∈ queue, it.chainOk S root q) → wrapSearchO S root target fuel queue seen = some w →
+      ChainFrom S root q w
+  | 0, _, _, _, _, h => by simp [wrapSearchO] at h
+  | _ + 1, [], _, _, _, h => by simp [wrapSearchO] at h
+  | fuel + 1, cur :: queue, seen, w, hq, h => by
+    rw [wrapSearchO.eq_3] at h
+    have hrest : ∀ (d : Dfa), d = (match cur.ty with | none => root | some t => S.dfa t) →
+        wrapSearchO S root target fuel (queue ++ (wrapEdges S d cur (d.edgesOf cur.state) seen).1)
+          (wrapEdges S d cur (d.edgesOf cur.state) seen).2 = some w → ChainFrom S root q w := by
+      intro d hd h'
+      refine wrapSearchO_chain S root q target fuel _ _ w ?_ h'
+      intro it hit
+      rcases List.mem_append.1 hit with hit | hit
+      · exact hq it (List.mem_cons_of_mem _ hit)
+      · exact wrapEdges_chainOk S root q cur d hd (hq cur (by simp)) _ _ (fun e he => he) it hit
+    cases hty : cur.ty with
+    | none =>
+      simp only [hty] at h hrest
+      split at h
+      · simp only [Option.some.injEq] at h
+        subst h
+        exact (hq cur (by simp)).1
+      · exact hrest root rfl h
+    | some t =>
+      simp only [hty] at h hrest
+      split at h
+      · simp only [Option.some.injEq] at h
+        subst h
+        exact (hq cur (by simp)).1
+      · exact hrest (S.dfa t) rfl h
+
+/-- **the wrappers `find_wrapping` answers can be opened one inside the other**, starting at the
+    position asked about -/
+theorem findWrappingTypes_chain (S : Schema) (d : Dfa) (q : Nat) (target : TypeId) (w : List TypeId)
+    (h : findWrappingTypes S d q target = some w) : ChainFrom S d q w := by
+  unfold findWrappingTypes at h
+  refine wrapSearchO_chain S d q target _ _ _ w ?_ h
+  intro it hit
+  simp only [List.mem_singleton] at hit
+  subst hit
+  exact ⟨trivial, rfl⟩
+
 /-! ### find_wrapping: the fuel is enough (simulation by `wrapSearch` of PM/Fill.lean) -/
 
 def WrapItem.toActive (it : WrapItem) : Active :=
